@@ -240,7 +240,14 @@ impl AsmParser {
                 break;
             }
 
-            self.line += 1;
+            self.line = match self.line.checked_add(1) {
+                Some(line) => line,
+                // Line numbers are 16 bits wide: nothing can follow statement 65,535
+                None => match self.toks.next() {
+                    Some(tok) => return Err(error::parse_too_many_statements(tok.span, self.src)),
+                    None => break,
+                },
+            };
         }
         Ok(self.air)
     }
